@@ -69,9 +69,9 @@ struct Stats {
     uint64_t sink_faults_planned = 0, sink_faults_fired = 0;
     uint64_t per_sink[SK__COUNT] = {0};
     uint64_t fault_kinds[4] = {0};         // cookie write failure, ostream overflow failure, istream read failure, corrupted source token
-    uint64_t probe[8] = {0};
+    uint64_t probe[16] = {0};
 };
-enum Probe { PC_OVERFLOW_IN_PADDING = 0, PC_OVERFLOW_BETWEEN_SURROGATES, PC_EOF_AT_TOKEN_END, PC_REFILL_INSIDE_CHAR, PC_FLUSH_INSIDE_CALL, PC_KNOWN_SPLIT_CHUNK, PC_TOKEN_REJECTED, PC_SKIPPED_U16_EOF, PC__COUNT };
+enum Probe { PC_OVERFLOW_IN_PADDING = 0, PC_OVERFLOW_BETWEEN_SURROGATES, PC_EOF_AT_TOKEN_END, PC_REFILL_INSIDE_CHAR, PC_FLUSH_INSIDE_CALL, PC_KNOWN_SPLIT_CHUNK, PC_TOKEN_REJECTED, PC_SKIPPED_U16_EOF, PC_EXTRACT_WITH_WIDTH, PC__COUNT };
 const char *probe_name(int i);
 
 struct RunResult { Viol viol; uint64_t sig = 0; bool nontrivial = false; uint64_t pairs = 0; };
